@@ -3,6 +3,7 @@
 From Coq Require Import ZArith List String Bool Ascii Lia.
 From Verif Require Import Value PyEq BsonOrder Path Filter Update Project Coll HistCheck HistProps.
 From Verif Require Import HistGuards C01Values C14Base C14Inv C14Ops.
+From Verif Require C14Keys.
 Import ListNotations.
 Open Scope Z_scope.
 Open Scope string_scope.
@@ -10,8 +11,12 @@ Open Scope list_scope.
 
 (* what the guard says of one store entry; uid: the history has a delete_one/find_one_and_*,
    fam: the history has a find_one_and_* *)
+(* the guard's c14_key_plain together with "the key is normalised", which is no longer assumed
+   but proved of the model's trace (C14Keys) *)
+Definition key_plain_norm (kd : value * value) : bool :=
+  value_eqb (patch (fst kd)) (fst kd) && c14_key_plain kd.
 Definition goodb (uid fam : bool) (kd : value * value) : bool :=
-  c14_key_refl kd && (negb uid || c14_id_is_key kd) && (negb fam || c14_key_plain kd).
+  c14_key_refl kd && (negb uid || c14_id_is_key kd) && (negb fam || key_plain_norm kd).
 
 Definition good (uid fam : bool) (s : store) : Prop := forallb (goodb uid fam) s = true.
 
@@ -33,7 +38,7 @@ Qed.
 
 Lemma goodb_plain uid k d : goodb uid true (k, d) = true -> patch k = k /\ plain_key k = true.
 Proof.
-  unfold goodb, c14_key_plain. simpl. intro H.
+  unfold goodb, key_plain_norm, c14_key_plain. simpl. intro H.
   apply andb_true_iff in H. destruct H as [_ H]. apply andb_true_iff in H. destruct H as [H1 H2].
   split; [apply value_eqb_eq; exact H1|exact H2].
 Qed.
@@ -484,5 +489,7 @@ Proof.
     + destruct (existsb c14_uses_id ops); [|reflexivity]. simpl in *.
       exact (existsb_negb_false _ _ H2 kd Hin).
     + destruct (existsb c14_is_fam ops); [|reflexivity]. simpl in *.
+      unfold key_plain_norm.
+      rewrite (C14Keys.model_keys_normalised pre5 ops H1 kd Hin), value_eqb_refl.
       exact (existsb_negb_false _ _ H4 kd Hin).
 Qed.
